@@ -342,3 +342,6 @@ def replay_handover(ctx, obj):
     if bad:
         ctx.violation(bad[0], dict(case, observed=obs, also=bad[1:3]), key=KEY_OVERTAKE if "overtook" in bad[0] else classify(sk, case["config"], res))
     return True
+
+
+replay = replay_handover
